@@ -107,9 +107,9 @@ func chandrainHandler(req *sb.Req) *sb.Rep {
 }
 
 func c09DrainRace(cfg sb.Config, rec *sb.Rec, pool *sb.Pool) {
-	trials := 1500
+	trials := 20000 // a trial takes some ten microseconds; the window needs two receivers really running at once
 	if cfg.Thorough() {
-		trials = 40000
+		trials = 300000
 	}
 	shapes := []drainCfg{{Cap: 4, Buffered: 1, Receivers: 2}, {Cap: 4, Buffered: 1, Receivers: 4}, {Cap: 4, Buffered: 3, Receivers: 4}, {Cap: 16, Buffered: 7, Receivers: 8}}
 	for i, sh := range shapes {
